@@ -578,6 +578,16 @@ fn parent_main(check: &dyn Check, a: &Args) -> ! {
     let _ = std::fs::create_dir_all(ev_path.parent().unwrap());
     let _ = std::fs::remove_file(&ev_path);
     let nworkers = check.workers(a.tier).max(1);
+    let mut determinism = Value::Null;
+    if a.tier == Tier::Thorough && a.cases_override.is_none() {
+        // the thorough tier proves the simulator's own determinism first
+        let n = check.cases(Tier::Quick).min(400);
+        let (cases, diverged) = selftest(check, a, n);
+        if !diverged.is_empty() {
+            harness_error(&format!("determinism self-test: {} of {cases} cases diverged between two executions: {:?}", diverged.len(), &diverged[..diverged.len().min(10)]));
+        }
+        determinism = json!({"cases": cases, "executions_per_case": 2, "worker_counts": [16, 5], "divergent": 0});
+    }
     let m = run_workers(check, a, nworkers, "b", false);
     let known = load_known();
     let mut m = m;
@@ -676,6 +686,9 @@ fn parent_main(check: &dyn Check, a: &Args) -> ! {
         "known_findings_reproduced": known_hits,
         "new_violations": report_lines,
     });
+    if !determinism.is_null() {
+        coverage["determinism_self_test"] = determinism;
+    }
     if !side_evidence.is_null() {
         coverage["side_check"] = side_evidence;
     }
@@ -870,8 +883,8 @@ fn minimise_main(check: &dyn Check, f: &Path, tier: Tier) -> ! {
     std::process::exit(0);
 }
 
-fn selftest_main(check: &dyn Check, a: &Args, n: u64) -> ! {
-    // every seed twice, in different processes and at two worker counts; event-log hashes must agree
+/// Every case twice, in different processes and at two worker counts; returns the divergent cases.
+fn selftest(check: &dyn Check, a: &Args, n: u64) -> (usize, Vec<u64>) {
     let mut a2 = Args { cases_override: Some(n), ..Args { ..parse_args(&[]) } };
     a2.tier = a.tier;
     a2.seed = a.seed;
@@ -883,13 +896,18 @@ fn selftest_main(check: &dyn Check, a: &Args, n: u64) -> ! {
             diverged.push(*c);
         }
     }
-    println!(
-        "determinism self-test {}: {} cases x 2 executions (16 and 5 worker processes), {} divergent",
-        check.id(), m1.hashes.len(), diverged.len()
-    );
     if m1.hashes.len() as u64 != n || m2.hashes.len() as u64 != n {
         harness_error("self-test: missing runs");
     }
+    (m1.hashes.len(), diverged)
+}
+
+fn selftest_main(check: &dyn Check, a: &Args, n: u64) -> ! {
+    let (cases, diverged) = selftest(check, a, n);
+    println!(
+        "determinism self-test {}: {} cases x 2 executions (16 and 5 worker processes), {} divergent",
+        check.id(), cases, diverged.len()
+    );
     if !diverged.is_empty() {
         harness_error(&format!("self-test: divergent cases {:?}", &diverged[..diverged.len().min(10)]));
     }
